@@ -37,7 +37,7 @@ class SetEncoder(encoder.SetEncoder):
                         '%s components for Choice at %r' % (len(names) and 'Multiple ' or 'None ', component))
 
                 # TODO: support nested CHOICE ordering
-                return asn1Spec[names[0]].tagSet
+                return asn1Spec.componentType[names[0]].asn1Object.tagSet
 
         else:
             return compType.tagSet
